@@ -72,6 +72,11 @@ CHECKS = {
         "note": "Trusted: TLC, h5py proxy, os._exit as process death, explicit flush as the write-back point (the spec allows every prefix between last flush and crash, and 'error').",
         "technique": "TLA+ crash/write-back model driven by recorded traces (code->spec trace validation with TLC) + crash-point replay in child processes",
     },
+    "C19": {
+        "text": "Progress.tla models the calling thread and the timer-callback threads at the granularity of the statements that touch shared state (Timer creation/start/cancel, lock acquire/release); TLC checks NoOrphanTimer and NoLateOutput on every interleaving of the repaired protocol with normal return or exit-on-exception, EventuallyQuiet under fairness, and that both the protocol as found and an exit-less abort violate them. TLC-sampled schedules are replayed on the real ProgressBar with fake Timer/Lock objects as preemption points: at every step the real thread must be at the statement the spec expects and the final timer states must agree. Every API x progress type x failing call index is run with a passive timer (no armed timer may remain) and once per API with real timers in a child process (no live thread, no output for 2.5 s).",
+        "note": "Trusted: TLC, the deterministic scheduler (threads block only at the fakes' entry points), fault injection through user callables / too-short process tensors. Known findings: the three functions that call enter()/exit() by hand.",
+        "technique": "TLA+ thread-interleaving model + TLC (safety and liveness); schedule replay with deterministic fake Timer/Lock; fault enumeration per API",
+    },
 }
 for e in ENGINES:
     e["serves_properties"] = sorted(CHECKS)
